@@ -82,6 +82,9 @@ class MergeExtractor(BaseExtractor):
                                         if column_reference_optional := e.get_child(
                                             "column_reference"
                                         ):
+                                            if j >= len(insert_columns):
+                                                # more values than insert columns
+                                                break
                                             if cqt := extract_column_qualifier(
                                                 column_reference_optional
                                             ):
